@@ -137,7 +137,8 @@ def make_call(g, c):
             "str": lambda: str(g), "names": lambda: (g.names, g.segment_names, g.edge_names, g.path_names, g.set_names, g.gap_names),
             "lines": lambda: g.lines, "validate": g.validate, "line": lambda: g.line(arg),
             "segment": lambda: g.segment(arg), "try_get_line": lambda: g.try_get_line(arg),
-            "select": lambda: g.select({"record_type": "S"}) + g.select({"name": arg}),
+            "select": lambda: g.select({"record_type": "S"}) + g.select({"name": arg}) +
+            g.select({"record_type": ("X", "Y", "Zz", "LEN", "Q")[i % 5]}),
             "components": lambda: [sorted(s.name for s in cc) for cc in g.connected_components()],
             "segment_component": (lambda: sorted(s.name for s in g.segment_connected_component(seg))) if seg else None,
             "counts": lambda: (g.n_dovetails, g.n_containments, g.n_internals, g.n_dead_ends),
@@ -339,13 +340,19 @@ def burst(w, op, st, n):
 
 def run(scn, st):
     w = World(st)
+    # a twin executes the same mutations and none of the read-only calls: 'nor any later answer' -- at the end
+    # the two write the same document, line by line in the same order
+    twin = World(core.Stats())
     complement_seen = False
     for n, op in enumerate(scn["ops"]):
         if op["op"] == "new":
             w.apply(op)
+            twin.apply(op)
             continue
         if w.gfa is None:
             continue
+        if op["op"] != "burst" and twin.gfa is not None:
+            twin.apply(op)
         if op["op"] == "burst":
             st.count("op.burst")
             st.step()
@@ -357,6 +364,17 @@ def run(scn, st):
         st.count("outcome." + out.kind)
         if op.get("complement"):
             complement_seen = True
+    if w.gfa is not None and twin.gfa is not None:
+        st.count("oracle.twin_without_queries")
+        v = w.gfa.version
+        a = [gtext.canon_lines(x, v) for x in ob.text_lines(w.gfa)] if v in ("gfa1", "gfa2") else ob.text_lines(w.gfa)
+        b = [gtext.canon_lines(x, v) for x in ob.text_lines(twin.gfa)] if v in ("gfa1", "gfa2") else ob.text_lines(twin.gfa)
+        if a != b or w.gfa.version != twin.gfa.version:
+            i = next((k for k in range(min(len(a), len(b))) if a[k] != b[k]), min(len(a), len(b)))
+            raise core.Violation("queries-changed-later-output",
+                                 "the same mutations without the read-only calls write a different document: line %d is %r "
+                                 "with the calls, %r without" % (i, a[i] if i < len(a) else None, b[i] if i < len(b) else None),
+                                 what="order" if sorted(map(str, a)) == sorted(map(str, b)) else "content")
 
 
 from .c02 import simplify as _s  # noqa: E402
